@@ -26,7 +26,7 @@ FUNCTIONS = ["ioflo.base.framing.Framer.ExEn", "Framer.enter/exit/rexit/renter/e
              "ioflo.base.building.Builder.build (concrete text)"]
 ASSUMPTIONS = [
     "program family: one framer of N frames in an arbitrary forest, arbitrary first frame, 1-2 transitions (source in the start outline for the first), "
-    "entry guards on every frame, optional plain and/or conditional auxiliary (2 frames each, done on the 2nd frame)",
+    "entry guards on every frame, optional plain and/or conditional auxiliary (2 frames each, done on the 2nd frame; aux1 variant: one frame with done = completes in its first iteration)",
     "share values are integers in [0,1]; prelude ticks (start; optionally activating the conditional auxiliary) use concrete values, the following ticks are fully symbolic",
     "selector-symbolic: forest, first frame, transition endpoints, auxiliary hosts; genuinely symbolic: all share values of the symbolic ticks",
     "transit actions are observed through a recorder appended to each Transiter's/Suspender's transit list",
@@ -35,8 +35,9 @@ ASSUMPTIONS = [
 KINDS = ("transit", "exit", "rexit", "renter", "enter")
 
 
-def h(sym, n, ngo, auxes, symticks, end, parent, suspended):
-    prog, info = flostep.family(sym, n, ngo=ngo, auxes=auxes, parent=parent, near_in_cur=True, host_in_cur=True)
+def h(sym, n, ngo, auxes, symticks, end, parent, suspended, aux_frames=2):
+    prog, info = flostep.family(sym, n, ngo=ngo, auxes=auxes, parent=parent, near_in_cur=True, host_in_cur=True,
+                                aux_frames=aux_frames)
     controls = [START]
     plan = [{"*": 1}]
     if suspended:
@@ -136,24 +137,27 @@ def obligations(tier):
     out = []
     if tier == "quick":
         cfgs = [(3, 1, (), 1, STOP, False), (3, 1, ("plain",), 1, ABORT, False), (3, 1, ("cond",), 1, STOP, True),
-                (3, 1, (), 1, "restart", False)]
+                (3, 1, (), 1, "restart", False), (3, 1, ("cond",), 1, STOP, False, 1)]
         exen = [3, 4]
     else:
         cfgs = [(3, 2, (), 2, STOP, False), (4, 1, (), 1, ABORT, False), (4, 2, (), 1, None, False),
                 (3, 1, ("plain",), 2, STOP, False), (4, 1, ("plain",), 1, ABORT, False),
                 (3, 1, ("cond",), 2, STOP, True), (3, 1, ("cond",), 2, ABORT, False), (4, 1, ("cond",), 1, STOP, True),
                 (3, 1, ("plain", "cond"), 1, STOP, True), (3, 1, ("plain", "plain"), 1, STOP, False),
-                (3, 1, (), 1, "restart", False), (4, 1, (), 1, "restart", False), (3, 1, ("plain",), 1, "restart", False)]
+                (3, 1, (), 1, "restart", False), (4, 1, (), 1, "restart", False), (3, 1, ("plain",), 1, "restart", False),
+                (3, 1, ("cond",), 2, STOP, False, 1), (4, 1, ("cond",), 2, ABORT, False, 1)]
         exen = [3, 4, 5]
     for n in exen:
         out.append(Ob("exen/N%d" % n, h_exen, dict(n=n), budget=600, bounds=dict(frames=n, pairs="all ordered (active, target)")))
-    for (n, ngo, auxes, symticks, end, suspended) in cfgs:
+    for cfg in cfgs:
+        (n, ngo, auxes, symticks, end, suspended) = cfg[:6]
+        aux_frames = cfg[6] if len(cfg) > 6 else 2
         covers = ["transition-taken"] + (["ended"] if end is not None else [])
         for parent in flostep.all_forests(n):
-            out.append(Ob("step/N%d-go%d-%s-%s-sym%d-%s/%s" % (
-                              n, ngo, "+".join(auxes) or "noaux", "suspended" if suspended else "fresh", symticks,
+            out.append(Ob("step/N%d-go%d-%s%s-%s-sym%d-%s/%s" % (
+                              n, ngo, "+".join(auxes) or "noaux", "-aux1" if aux_frames == 1 else "", "suspended" if suspended else "fresh", symticks,
                               {None: "run", 0: "stop", 3: "abort", "restart": "restart"}[end], "".join("r" if q < 0 else str(q) for q in parent)),
-                          h, dict(n=n, ngo=ngo, auxes=auxes, symticks=symticks, end=end, parent=parent, suspended=suspended),
+                          h, dict(n=n, ngo=ngo, auxes=auxes, symticks=symticks, end=end, parent=parent, suspended=suspended, aux_frames=aux_frames),
                           budget=400 if tier == "quick" else 1200, covers=covers,
                           bounds=dict(frames=n, forest=parent, first="any", transitions=ngo, auxes=list(auxes),
                                       symbolic_ticks=symticks, prelude="start" + ("+activate cond aux" if suspended else ""),
